@@ -11,6 +11,7 @@ import (
 	"math/rand"
 	"os"
 	"path/filepath"
+	"sync"
 	"syscall"
 
 	chunk "github.com/ipfs/boxo/chunker"
@@ -232,17 +233,46 @@ type buildVariant struct {
 	pre         int    // files: the source is a seekable reader whose first bytes the caller has already consumed (1 = bytes.Reader, 2 = *os.File)
 	altRoot     int    // recursive: 1 = the same tree materialised under another (deeper) directory, 2 = the root given as a relative path
 	werr        string // kind of the injected write error ("" = a plain I/O error, "eof" = io.EOF itself, "eofwrap")
+	// reuse: the build does not start from scratch -
+	//   st != nil             into a store that already holds blocks (of an earlier build of the same input)
+	//   ls != nil             through a LinkSystem object an earlier build used
+	//   ls != nil && swap     ... whose storage has meanwhile been pointed at another (fresh) store
+	st   *Store
+	ls   *ipld.LinkSystem
+	swap bool
 }
 
 // oneBuild runs a single build variant on a fresh store.
 func oneBuild(bc *BuildCase, v buildVariant, cc *caseClasses, content []byte, treeDir string) (M, *Store, cid.Cid) {
-	st := NewStore()
-	targets := putTargets(st)
-	st.logWrites = true
-	st.failOpenAt = v.failOpen
-	st.failCommitAt = v.failCommit
-	st.writeErrKind = v.werr
-	ls := st.LinkSystem()
+	st := v.st
+	if st == nil || v.swap {
+		st = NewStore()
+	}
+	var targets []cid.Cid
+	if st.parallel {
+		targets = st.targets // prepared by the caller; nothing of the shared store is configured from inside a builder goroutine
+	} else {
+		targets = putTargets(st)
+		st.logWrites = true
+		st.failOpenAt = v.failOpen
+		st.failCommitAt = v.failCommit
+		st.writeErrKind = v.werr
+	}
+	ls := v.ls
+	if ls == nil {
+		ls = st.LinkSystem()
+	} else if v.swap {
+		fresh := st.LinkSystem()
+		ls.StorageWriteOpener, ls.StorageReadOpener = fresh.StorageWriteOpener, fresh.StorageReadOpener
+	}
+	if st.parallel {
+		st.mu.Lock()
+	}
+	st.lastLS = ls
+	c0, w0, o0 := len(st.commits), len(st.wevents), st.opens
+	if st.parallel {
+		st.mu.Unlock()
+	}
 	var lnk ipld.Link
 	var size uint64
 	var err error
@@ -288,7 +318,7 @@ func oneBuild(bc *BuildCase, v buildVariant, cc *caseClasses, content []byte, tr
 			lnk, size, err = builder.BuildUnixFSSymlink(bc.Target, ls)
 		case "dir", "sharded", "quickdir":
 			dc := &DirCase{Builder: map[string]string{"dir": "dir", "sharded": "sharded", "quickdir": "quick"}[bc.What],
-				Fanout: bc.Fanout, Universe: bc.Universe, Entries: v.order, MixV0: bc.MixV0, Hasher: bc.Hasher, SizeBase: bc.SizeBase}
+				Fanout: bc.Fanout, Universe: bc.Universe, Entries: v.order, MixV0: bc.MixV0, Hasher: bc.Hasher, SizeBase: bc.SizeBase, LS: ls}
 			dc.Links = make([]int, len(v.order))
 			for i, id := range v.order {
 				dc.Links[i] = id % nTargets
@@ -360,13 +390,17 @@ func oneBuild(bc *BuildCase, v buildVariant, cc *caseClasses, content []byte, tr
 			root = cl.Cid
 		}
 	}
+	if st.parallel {
+		st.mu.Lock()
+		defer st.mu.Unlock()
+	}
 	commits := []M{}
-	for _, ce := range st.commits {
+	for _, ce := range st.commits[c0:] {
 		commits = append(commits, parseCommit(cc, ce))
 	}
 	faulted := false
 	wev := []string{}
-	for _, w := range st.wevents {
+	for _, w := range st.wevents[w0:] {
 		wev = append(wev, w.Kind)
 		if w.Kind == "openfail" || w.Kind == "commitfail" {
 			faulted = true
@@ -379,7 +413,7 @@ func oneBuild(bc *BuildCase, v buildVariant, cc *caseClasses, content []byte, tr
 	ev := M{"ev": "build", "what": bc.What, "input": v.input, "tag": v.tag, "commits": commits, "wev": wev, "ext": ext,
 		"ret":      M{"link": cc.classOf(root), "size": size, "e": errClass(err)},
 		"failOpen": v.failOpen, "failCommit": v.failCommit, "faulted": faulted, "root": rootS,
-		"n": -1, "w": bc.W, "opens": st.opens, "ncommits": len(st.commits), "readFail": v.readFail - 1}
+		"n": -1, "w": bc.W, "opens": st.opens - o0, "ncommits": len(st.commits) - c0, "readFail": v.readFail - 1}
 	return ev, st, root
 }
 
@@ -458,6 +492,51 @@ func runBuildCase(bc *BuildCase, tr *Tr) error {
 	}
 	for i := 0; i < bc.Repeat; i++ {
 		emit(buildVariant{input: 1, order: bc.Entries, tag: fmt.Sprintf("repeat-%d", i)})
+	}
+	if bc.Repeat > 0 && len(bc.Universe) < 5000 {
+		// the same input once more into the store that already holds the result (a rebuild), through the same LinkSystem
+		// object; then through that object after its storage was pointed at a fresh store
+		e2, _, _ := oneBuild(bc, buildVariant{input: 1, order: bc.Entries, tag: "same-store", st: st, ls: st.lastLS}, cc, content, treeDir)
+		e2["produced"], e2["clean"] = produced, false
+		summarizeBig(e2)
+		tr.Emit(e2)
+		e3, _, _ := oneBuild(bc, buildVariant{input: 1, order: bc.Entries, tag: "swapped-store", ls: st.lastLS, swap: true}, cc, content, treeDir)
+		e3["produced"], e3["clean"] = produced, false
+		summarizeBig(e3)
+		tr.Emit(e3)
+	}
+	if bc.Repeat > 0 && len(bc.Universe) < 5000 && bc.What != "quicktree" {
+		// several builders of the same input at once, through one LinkSystem into one store (a parallel importer): every
+		// one of them must return what a build on its own returns, and sizes that add up
+		pst := NewStore()
+		putTargets(pst)
+		pst.parallel, pst.logWrites = true, true
+		pls := pst.LinkSystem()
+		const G = 4
+		evs := make([]M, G)
+		var wg sync.WaitGroup
+		for g := 0; g < G; g++ {
+			wg.Add(1)
+			go func(g int) {
+				defer wg.Done()
+				pcc := &caseClasses{m: map[string]int{}}
+				e, _, _ := oneBuild(bc, buildVariant{input: 1, order: bc.Entries, tag: fmt.Sprintf("parallel-%d", g), st: pst, ls: pls}, pcc, content, treeDir)
+				evs[g] = e
+			}(g)
+		}
+		wg.Wait()
+		for _, e := range evs {
+			// the commit sequences of the builders interleave: the structural facts are computed from the final store
+			root, _ := cid.Decode(fmt.Sprint(e["root"]))
+			ret := e["ret"].(M)
+			cum, tsizeOK := storeCum(pst, root)
+			e["produced"], e["clean"], e["big"] = produced, false, true
+			e["bigOK"] = M{"nodangling": true, "tsize": tsizeOK, "filesizes": true, "complete": true,
+				"returned": ret["e"] != "nil" || !root.Defined() || cum == num64(ret["size"])}
+			ret["link"] = cc.classOf(root)
+			e["commits"], e["ext"], e["n"] = []M{}, []M{}, -1
+			tr.Emit(e)
+		}
 	}
 	if bc.Repeat > 0 && bc.What == "file" {
 		// the same content behind a header the caller has already consumed (seekable sources at a non-zero offset)
@@ -577,6 +656,56 @@ func summarizeHuge(ev M, st *Store, root cid.Cid, bc *BuildCase) {
 	// sizes do not fit TLC's integers: carried as a flag only
 	ret["size"] = 0
 	ev["ext"] = []M{}
+}
+
+// storeCum: the cumulative encoded size below c computed from the final store (block length plus, per link, the
+// cumulative size of a stored target or else the link's own Tsize), and whether every link to a stored block carries that size.
+func storeCum(st *Store, c cid.Cid) (int64, bool) {
+	ok := true
+	memo := map[string]int64{}
+	var rec func(c cid.Cid) int64
+	rec = func(c cid.Cid) int64 {
+		if v, seen := memo[c.KeyString()]; seen {
+			return v
+		}
+		b, have := st.Get(c)
+		if !have {
+			ok = false
+			return 0
+		}
+		total := int64(len(b))
+		if c.Prefix().Codec == cid.DagProtobuf {
+			if pn, _, err := decodePB(c, b); err == nil && pn != nil {
+				for _, l := range pn.Links() {
+					if _, stored := st.Get(l.Cid); stored && !isTarget(st, l.Cid) {
+						sub := rec(l.Cid)
+						if int64(l.Size) != sub {
+							ok = false
+						}
+						total += sub
+					} else {
+						total += int64(l.Size)
+					}
+				}
+			}
+		}
+		memo[c.KeyString()] = total
+		return total
+	}
+	if !c.Defined() {
+		return 0, true
+	}
+	return rec(c), ok
+}
+
+// isTarget: one of the pre-existing entry targets (their declared size is what the entry says, not their length)
+func isTarget(st *Store, c cid.Cid) bool {
+	for _, t := range st.targets {
+		if t.Equals(c) {
+			return true
+		}
+	}
+	return false
 }
 
 const bigBuild = 150
